@@ -74,13 +74,20 @@ SETUP_GROUPING = dict(
     ensures={'each-measurement-in-at-most-one-group': 'ghost("n_site_groupappend") <= len(measurements)'},
 )
 
+# what is added for measurement k under its clique: lambda_max(Q_k^T Q_k) * |clique| / |proj| / noise_k^2, with the eigenvalue
+# computed from THIS measurement's query matrix (numbers are reals here, so the clause is about the value, not its spelling)
+_OP = 'aslinearoperator(measurements[_it1][0])'
+_TERM = 'as_real(eigsh(%s.H * %s, 1)[0][0]) * self.domain.size(cl) / self.domain.size(proj) / (noise * noise)' % (_OP, _OP)
 LIPSCHITZ = dict(
-    params=dict(self='obj:FactoredInference', measurements='seq:obj'), pure=PURE, attr_types=ATTR, requires=[],
-    unpack_types={'noise': 'real'}, division='abort',
+    params=dict(self='obj:FactoredInference', measurements='seq:obj'), pure=dict(PURE, **{'.size': 'real'}), attr_types=ATTR, requires=[],
+    unpack_types={'noise': 'real'}, division='abort', numeric_objects=True,
     sites=[dict(func='[]=', container='eigs', name='eigaccumulate',
-                spec='same(__key, cl) and (set(proj) <= set(cl)) and same(cl, %s[_it2]) and %s' % (CANON, _not_earlier('_it2')))],
+                spec='same(__key, cl) and (set(proj) <= set(cl)) and same(cl, %s[_it2]) and %s' % (CANON, _not_earlier('_it2'))),
+           dict(func='[]=', container='eigs', name='accumulated-term-is-this-measurements-eigenvalue-bound',
+                spec='same(__arg, eigs[cl] + %s)' % _TERM)],
     loops={1: dict(invariant=['ghost("n_site_eigaccumulate") <= _it1']),
-           2: dict(invariant=['ghost("n_site_eigaccumulate") == n_site_eigaccumulate__loop2', _not_earlier('_it2')])},
+           2: dict(invariant=['ghost("n_site_eigaccumulate") == n_site_eigaccumulate__loop2', _not_earlier('_it2'),
+                              'same(Q, measurements[_it1][0])', 'noise == as_real(measurements[_it1][2])'])},
     ensures={'each-measurement-accumulated-at-most-once': 'ghost("n_site_eigaccumulate") <= len(measurements)'},
 )
 
